@@ -20,9 +20,11 @@ package webrtc
 // ICE-server validity is decided by a hand-labelled table, not by pion's validate().
 
 import (
+	"crypto"
 	"crypto/ecdsa"
 	"crypto/elliptic"
 	"crypto/rand"
+	"crypto/rsa"
 	"crypto/x509"
 	"crypto/x509/pkix"
 	"errors"
@@ -45,7 +47,7 @@ type vfC39Cfg struct {
 	Bundle   int    `json:"bundle"`   // BundlePolicy value 0..3 (0 = unset)
 	Mux      int    `json:"mux"`      // RTCPMuxPolicy value 0..2 (0 = unset)
 	Identity string `json:"identity"` // "" = unset
-	Certs    []int  `json:"certs"`    // indices into the certificate pool (k and k+4 are the same certificate, k+4 re-imported from PEM)
+	Certs    []int  `json:"certs"`    // indices into the certificate pool: key*3 + variant (0 certificate, 1 the same re-imported from PEM, 2 another certificate for the same key); keys 0..3 ECDSA, 4 RSA
 	Pool     int    `json:"pool"`
 	Policy   int    `json:"policy"`  // ICETransportPolicy 0..2
 	Servers  []int  `json:"servers"` // indices into vfC39Servers
@@ -93,10 +95,12 @@ var vfC39Servers = []vfC39Server{
 
 const vfC39NValid = 6
 
+const vfC39NKeys = 5 // certificate pool: 4 ECDSA keys + 1 RSA key, 3 certificates each
+
 var (
 	vfC39Once  sync.Once
 	vfC39API   *API
-	vfC39Certs []Certificate // 0..3 originals, 4..7 their PEM round trips
+	vfC39Certs []Certificate // index = key*3 + variant, see vfC39Setup
 	vfC39Err   error
 )
 
@@ -114,36 +118,50 @@ func vfC39Setup() error {
 		lf.DefaultLogLevel = logging.LogLevelDisabled
 		se.LoggerFactory = lf
 		vfC39API = NewAPI(WithSettingEngine(se))
-		for i := 0; i < 4; i++ {
-			sk, err := ecdsa.GenerateKey(elliptic.P256(), rand.Reader)
+		// pool index = key*3 + variant; keys 0..3 ECDSA P-256, key 4 RSA-2048;
+		// variant 0 = a certificate for the key, 1 = the same certificate re-imported from PEM,
+		// 2 = a DIFFERENT certificate issued for the same key (other serial, names, validity)
+		for k := 0; k < vfC39NKeys; k++ {
+			var sk crypto.PrivateKey
+			var err error
+			if k < 4 {
+				sk, err = ecdsa.GenerateKey(elliptic.P256(), rand.Reader)
+			} else {
+				sk, err = rsa.GenerateKey(rand.Reader, 2048)
+			}
 			if err != nil {
 				vfC39Err = err
 				return
 			}
-			c, err := NewCertificate(sk, x509.Certificate{
-				SerialNumber: big.NewInt(int64(1000 + i)),
-				Subject:      pkix.Name{CommonName: fmt.Sprintf("vfC39-%d", i)},
-				NotBefore:    time.Now().Add(-time.Hour),
-				NotAfter:     time.Now().Add(24 * time.Hour),
-			})
+			issue := func(gen int) (*Certificate, error) {
+				return NewCertificate(sk, x509.Certificate{
+					SerialNumber: big.NewInt(int64(1000 + 10*k + gen)),
+					Subject:      pkix.Name{CommonName: fmt.Sprintf("vfC39-key%d-issue%d", k, gen)},
+					NotBefore:    time.Now().Add(-time.Hour * time.Duration(1+gen)),
+					NotAfter:     time.Now().Add(24 * time.Hour * time.Duration(1+gen)),
+				})
+			}
+			orig, err := issue(0)
 			if err != nil {
 				vfC39Err = err
 				return
 			}
-			vfC39Certs = append(vfC39Certs, *c)
-		}
-		for i := 0; i < 4; i++ {
-			p, err := vfC39Certs[i].PEM()
+			p, err := orig.PEM()
 			if err != nil {
 				vfC39Err = err
 				return
 			}
-			c, err := CertificateFromPEM(p)
+			clone, err := CertificateFromPEM(p)
 			if err != nil {
 				vfC39Err = err
 				return
 			}
-			vfC39Certs = append(vfC39Certs, *c)
+			reissued, err := issue(1)
+			if err != nil {
+				vfC39Err = err
+				return
+			}
+			vfC39Certs = append(vfC39Certs, *orig, *clone, *reissued)
 		}
 	})
 	return vfC39Err
@@ -456,6 +474,23 @@ func vfC39Run(v *vfT, c vfC39Case) {
 			state = "open+pending-local"
 		}
 		v.Label(fmt.Sprintf("set:state=%s,touches=%s,servers-valid=%v", state, touch, srvOK))
+		if len(st.Cfg.Certs) > 0 && len(st.Cfg.Certs) == len(c.Init.Certs) {
+			sameKeys, reissued := true, false
+			for k := range st.Cfg.Certs {
+				a, b := vfC39Mod(st.Cfg.Certs[k], len(vfC39Certs)), vfC39Mod(c.Init.Certs[k], len(vfC39Certs))
+				sameKeys = sameKeys && a/3 == b/3
+				reissued = reissued || (a%3 == 2) != (b%3 == 2)
+			}
+			if sameKeys && reissued {
+				kind := "ecdsa"
+				for _, i := range st.Cfg.Certs {
+					if vfC39Mod(i, len(vfC39Certs))/3 == 4 {
+						kind = "incl-rsa"
+					}
+				}
+				v.Label("set:certificates-reissued-for-the-same-keys(" + kind + "),state=" + state)
+			}
+		}
 		where := fmt.Sprintf("step %d (%s)", i, state)
 		if err != nil {
 			sawReject = true
@@ -524,12 +559,14 @@ func vfC39GenCfg(t *rapid.T, base *vfC39Cfg, initial bool) vfC39Cfg {
 		c.Bundle = rapid.IntRange(0, 3).Draw(t, "bundle")
 		c.Mux = rapid.IntRange(0, 2).Draw(t, "mux")
 		c.Identity = rapid.SampledFrom([]string{"", "", "alice"}).Draw(t, "identity")
+		variant := func(name string) int { return rapid.SampledFrom([]int{0, 0, 2}).Draw(t, name) }
 		switch rapid.IntRange(0, 3).Draw(t, "ncerts") {
 		case 1:
-			c.Certs = []int{rapid.IntRange(0, 3).Draw(t, "c0")}
+			c.Certs = []int{rapid.IntRange(0, vfC39NKeys-1).Draw(t, "k0")*3 + variant("v0")}
 		case 2:
-			a := rapid.IntRange(0, 3).Draw(t, "c0")
-			c.Certs = []int{a, (a + rapid.IntRange(1, 3).Draw(t, "c1")) % 4}
+			a := rapid.IntRange(0, vfC39NKeys-1).Draw(t, "k0")
+			b := (a + rapid.IntRange(1, vfC39NKeys-1).Draw(t, "k1")) % vfC39NKeys
+			c.Certs = []int{a*3 + variant("v0"), b*3 + variant("v1")}
 		}
 		c.Pool = rapid.IntRange(0, 1).Draw(t, "pool")
 	default:
@@ -551,34 +588,53 @@ func vfC39GenCfg(t *rapid.T, base *vfC39Cfg, initial bool) vfC39Cfg {
 		case 2:
 			c.Identity = base.Identity + "bob"
 		}
-		switch rapid.IntRange(0, 7).Draw(t, "certMode") {
+		otherKey := func(i int, name string) int { // a certificate for a different key
+			return ((i/3+rapid.IntRange(1, vfC39NKeys-1).Draw(t, name))%vfC39NKeys)*3 + rapid.SampledFrom([]int{0, 2}).Draw(t, name+"v")
+		}
+		switch rapid.IntRange(0, 10).Draw(t, "certMode") {
 		case 0, 1: // unset
 		case 2: // the same list
 			c.Certs = append([]int(nil), base.Certs...)
-		case 3: // the same certificates, re-imported from PEM
+		case 3: // the same certificates, re-imported from PEM where the pool has that
 			for _, i := range base.Certs {
-				c.Certs = append(c.Certs, i+4)
+				if i%3 == 0 {
+					i++
+				}
+				c.Certs = append(c.Certs, i)
 			}
-		case 4: // same length, one different
+		case 4: // same length, one for a different key
 			c.Certs = append([]int(nil), base.Certs...)
 			if len(c.Certs) == 0 {
-				c.Certs = []int{rapid.IntRange(0, 3).Draw(t, "newcert")}
+				c.Certs = []int{rapid.IntRange(0, vfC39NKeys*3-1).Draw(t, "newcert")}
 			} else {
 				k := rapid.IntRange(0, len(c.Certs)-1).Draw(t, "which")
-				c.Certs[k] = (c.Certs[k] + 1) % 4
-				if len(c.Certs) == 2 && c.Certs[0] == c.Certs[1] {
-					c.Certs[k] = (c.Certs[k] + 1) % 4
-				}
+				c.Certs[k] = otherKey(c.Certs[k], "otherKey")
 			}
 		case 5: // reordered
 			for i := len(base.Certs) - 1; i >= 0; i-- {
 				c.Certs = append(c.Certs, base.Certs[i])
 			}
 		case 6: // longer
-			c.Certs = append(append([]int(nil), base.Certs...), rapid.IntRange(0, 3).Draw(t, "extra"))
+			c.Certs = append(append([]int(nil), base.Certs...), rapid.IntRange(0, vfC39NKeys*3-1).Draw(t, "extra"))
 		case 7: // shorter (prefix)
 			if len(base.Certs) > 1 {
 				c.Certs = append([]int(nil), base.Certs[:1]...)
+			}
+		default: // same keys, but one (or every) certificate re-issued for its key
+			c.Certs = append([]int(nil), base.Certs...)
+			all := rapid.Bool().Draw(t, "reissueAll")
+			which := 0
+			if len(c.Certs) > 0 {
+				which = rapid.IntRange(0, len(c.Certs)-1).Draw(t, "reissueWhich")
+			}
+			for k, i := range c.Certs {
+				if all || k == which {
+					if i%3 == 2 {
+						c.Certs[k] = i - 2 + rapid.IntRange(0, 1).Draw(t, "reissueTo")
+					} else {
+						c.Certs[k] = i - i%3 + 2
+					}
+				}
 			}
 		}
 		switch mode("poolMode") {
@@ -603,7 +659,7 @@ func vfC39GenCfg(t *rapid.T, base *vfC39Cfg, initial bool) vfC39Cfg {
 
 func TestVerif_C39_Sequences(t *testing.T) {
 	vfProperty(t, "C39", vfOpts{
-		Rule: "initial Configuration (policies, identity, 0..2 certificates from a pool, pool size 0/1, valid ICE servers) x 1..8 operations: SetConfiguration whose fields are independently unchanged / zero / changed (certificates: same, same re-imported from PEM, one replaced, reordered, longer, shorter; ICE servers valid or one of 8 invalid forms), 'create the local description' (pending), 'complete an offer/answer exchange with a throw-away peer as offerer or answerer' (local description becomes current, state stable), Close; non-trivial = the sequence contains both a rejected and an accepted SetConfiguration",
+		Rule: "initial Configuration (policies, identity, 0..2 certificates from a pool, pool size 0/1, valid ICE servers) x 1..8 operations: SetConfiguration whose fields are independently unchanged / zero / changed (certificates from a pool of 4 ECDSA keys and 1 RSA key with two different certificates per key: same, same re-imported from PEM, one replaced by another key's, one or all re-issued for the same key, reordered, longer, shorter; ICE servers valid or one of 8 invalid forms), 'create the local description' (pending), 'complete an offer/answer exchange with a throw-away peer as offerer or answerer' (local description becomes current, state stable), Close; non-trivial = the sequence contains both a rejected and an accepted SetConfiguration",
 		Assumptions: []string{"a zero-valued field in the argument means 'leave unchanged' (pion's documented convention), so only non-zero differing values are attempts to change",
 			"a pure reordering of the same certificates is counted as ambiguous and only the weaker clauses are asserted on it",
 			"ICE-server validity comes from a hand-labelled table (W3C set-the-configuration 11.3.x, RFC 7064/7065)",
